@@ -8,6 +8,7 @@
 mod alloc;
 mod canon;
 mod games;
+mod idcheck;
 mod gen_games;
 mod master;
 mod net;
@@ -31,6 +32,7 @@ fn entries() -> Vec<(&'static str, EntryFn)> {
     v.extend(master::entries());
     v.extend(settings::entries());
     v.extend(games::entries());
+    v.extend(idcheck::entries());
     v
 }
 
